@@ -369,6 +369,9 @@ func analyseMapRoutine(c *Ctx, fn *ssa.Function) *mapRoutine {
 			}
 			src := e.Srcs[0]
 			side, ld, viaLen := classify(src)
+			if e.LenOf != nil {
+				viaLen = true
+			}
 			p.side = side
 			if viaLen {
 				p.what = "len"
@@ -806,6 +809,55 @@ func (c *Ctx) checkMapLookup(s *obSink) (binaryExcluded bool, ok bool) {
 		return false, false
 	}
 	t := descParam(fn).Name()
+	// the lookup may live in a helper that receives the key and value descriptors: read its parameters as the caller's
+	// t.K and t.V when every call site passes exactly those
+	norm := func(p string) string { return p }
+	var tparams []*ssa.Parameter
+	for _, prm := range fn.Params {
+		if namedOf(prm.Type()) == "tType" {
+			tparams = append(tparams, prm)
+		}
+	}
+	if len(tparams) == 2 {
+		okBind, nCalls := true, 0
+		for _, caller := range c.ModuleFuncs(pkgReflect) {
+			for _, cb := range caller.Blocks {
+				for _, ci := range cb.Instrs {
+					call, isCall := ci.(*ssa.Call)
+					if !isCall || call.Call.StaticCallee() != fn {
+						continue
+					}
+					nCalls++
+					cd := descParam(caller)
+					var a0, a1 string
+					for k, prm := range fn.Params {
+						if prm == tparams[0] {
+							a0 = path(call.Call.Args[k])
+						}
+						if prm == tparams[1] {
+							a1 = path(call.Call.Args[k])
+						}
+					}
+					if cd == nil || a0 != cd.Name()+".K" || a1 != cd.Name()+".V" {
+						okBind = false
+					}
+				}
+			}
+		}
+		if okBind && nCalls > 0 {
+			k0, v0 := tparams[0].Name(), tparams[1].Name()
+			t = "t"
+			norm = func(p string) string {
+				switch {
+				case p == k0 || strings.HasPrefix(p, k0+"."):
+					return "t.K" + p[len(k0):]
+				case p == v0 || strings.HasPrefix(p, v0+"."):
+					return "t.V" + p[len(v0):]
+				}
+				return p
+			}
+		}
+	}
 	found := false
 	for _, b := range fn.Blocks {
 		for _, in := range b.Instrs {
@@ -815,6 +867,9 @@ func (c *Ctx) checkMapLookup(s *obSink) (binaryExcluded bool, ok bool) {
 			}
 			found = true
 			kf := keyFields(fn, lk.Index)
+			for kk, vv := range kf {
+				kf[kk] = norm(vv)
+			}
 			good := kf["k"] == t+".K.T" && kf["v"] == t+".V.T"
 			s.check(good, "updateMapAppendFunc.lookup", c.InstrPos(lk), "looks up {k: t.K.T, v: t.V.T}", fmt.Sprintf("lookup key built as %v, expected {k: %s.K.T, v: %s.V.T}", kf, t, t))
 			ok = ok && good
@@ -825,7 +880,7 @@ func (c *Ctx) checkMapLookup(s *obSink) (binaryExcluded bool, ok bool) {
 					continue
 				}
 				cv, isC := constInt(bo.Y)
-				if !isC || !hasBin || cv != tb || path(bo.X) != t+".V.Tag" {
+				if !isC || !hasBin || cv != tb || norm(path(bo.X)) != t+".V.Tag" {
 					continue
 				}
 				if (bo.Op == token.EQL && !cd.Truth) || (bo.Op == token.NEQ && cd.Truth) {
@@ -855,7 +910,7 @@ func (c *Ctx) checkMapLookup(s *obSink) (binaryExcluded bool, ok bool) {
 		for _, in := range b.Instrs {
 			switch x := in.(type) {
 			case *ssa.Store:
-				if path(x.Addr) != t+".AppendFunc" {
+				if !strings.HasSuffix(path(x.Addr), ".AppendFunc") {
 					continue
 				}
 				nSel++
@@ -1114,6 +1169,9 @@ func analyseListRoutine(c *Ctx, fn *ssa.Function) *listRoutine {
 					continue
 				}
 				break
+			}
+			if e.LenOf != nil {
+				viaLen, c32 = true, false
 			}
 			ld := loadOf(src)
 			if ld == nil || !isElemPtr(ld.Ptr) {
